@@ -10,9 +10,10 @@ P = {
          "after an honest registration the client accepts, the server accepts its finalization, keys agree, export key and server key as at "
          "registration; differential run of honest flows on boundary-length inputs, all suites, production build",
          "concrete group laws are hypotheses (proved for the toy suite); non-degeneracy hypotheses are explicit in the statement"),
- "C02": ("battery of near-miss password pairs with the InvalidLogin oracle + cross-check of every client finish against the model; the Coq part proves the "
-         "injective Finalize-input encoding and the refusal of over-long passwords (the full collision-chain theorem is not yet proved)",
-         "the rejection itself is established by exploration + correspondence; theorem covers encoding injectivity only"),
+ "C02": ("theorem wrong_password_never_accepted: after an honest registration with pw, a login with any pw' <> pw against the honest server is "
+         "never accepted by the client unless an explicit bad event is exhibited (collision of HMAC / hash / HKDF-Expand / key derivation / DH in the "
+         "private key, each with its witness); injective password encoding, refusal of over-long passwords; near-miss battery with the InvalidLogin oracle",
+         "concrete group laws are hypotheses; the error kind InvalidLogin is observed by the battery"),
  "C03": ("theorem: exactly one byte string (the HMAC of the stored transcript under the stored key) completes a pending server login, everything else is "
          "InvalidLogin - unconditional, also at the byte-level API; exhaustive bit flips, structured multi-byte alterations and random strings on the crate",
          "none beyond the common trusted base"),
@@ -24,9 +25,10 @@ P = {
          "the end-to-end binding theorem is given for server key + sealed identities (C06_envelope_binds) up to an exhibited HMAC collision"),
  "C06": ("theorems: reported key = setup key; envelope binds server key and identities, substituted static key => InvalidLogin or an exhibited HMAC collision",
          "concrete group laws are hypotheses"),
- "C07": ("routing battery over the property's population (exhaustive in thorough) with the matched-conversation oracle + cross-check; the Coq part is the "
-         "pairwise binding (C03, C05, C06 theorems) - the inductive matched-conversation invariant over histories is not yet proved",
-         "history-level invariant established by exploration + correspondence"),
+ "C07": ("PARTIAL: pairwise matching theorems, whatever the routing - an accepted response carrying an honest server MAC has that session's transcript "
+         "(so the session consumed this client's request; context and identities agree), an accepted finalization has the accepting session's transcript, "
+         "keys agree within a matched session - or an HMAC/hash collision is exhibited; exhaustive routing battery with the matched-conversation oracle",
+         "the bookkeeping induction over histories and key distinctness (a freshness event) are not proved; decided by the battery + cross-check"),
  "C08": ("theorems: same length/structure, same evaluation function, fake record = (tape masking key, zero envelope, fake key), fields from fresh tape ranges, "
          "no other finalization accepted; battery incl. fake-state freshness",
          "client InvalidLogin on a fake response rests on a BadGuess event; validated by the battery"),
